@@ -359,6 +359,8 @@ def finish(mod, prop, tier, seed, parts, t0, workers):
             continue
         first = lst[0]
         budget = (90 if tier == "quick" else 300) if len(reported) < 6 else 0      # later keys: recorded unshrunk
+        if os.environ.get("VERIF_NO_SHRINK"):
+            budget = 0
         plan, steps, res, vio = shrink_and_run(mod, prop, first["plan"], first["violation"], budget)
         path = os.path.join(VERIF, "replays", "%s-%s-%s-%s.json" % (
             prop, seed, first["run"], hashlib.sha1(key.encode()).hexdigest()[:8]))
